@@ -46,8 +46,9 @@ Theorem C18_union_types_unified : forall P ls rs out,
   forall k l r o, nth_error ls k = Some l -> nth_error rs k = Some r -> nth_error out k = Some o ->
     match snd o with
     | SNone => fst o = l /\ l = r
-    | SRight => fst o = l /\ (exists s, score P (d_id r) (d_id l) = Some s)
-    | SLeft => fst o = r /\ (exists s, score P (d_id l) (d_id r) = Some s)
+    | SRight => fst o = l /\ ((exists s, score P (d_id r) (d_id l) = Some s) \/ (is_dec P l /\ is_dec P r))
+    | SLeft => fst o = r /\ ((exists s, score P (d_id l) (d_id r) = Some s) \/ (is_dec P l /\ is_dec P r))
+    | SBoth => is_dec P l /\ is_dec P r /\ is_dec P (fst o) /\ dec_unify P l r = Some o
     end.
 Proof. exact union_types_unified. Qed.
 Print Assumptions C18_union_types_unified.
@@ -55,18 +56,39 @@ Print Assumptions C18_union_types_unified.
 (* 3b. accepted => after the casts the binder requests (a branch that needs a cast for any column is projected to
    the output types, SetOpPlanner::wrap_cast) BOTH branches have exactly the announced FULL data types - ids and
    parameters (decimal precision/scale, timestamp unit, list element type; [dtype] = id + metadata) - and every
-   cast inserted has an implicit-cast score.  Tied to the source: the column comparison is `left == right` on
-   DataType values and the length test is present (scanned on every run). *)
+   cast inserted either has an implicit-cast score or is decimal -> the unified decimal.  Tied to the source:
+   the column comparison is `left == right` on DataType values, the length test and the decimal rule are present
+   as transcribed, and the two MAX_PRECISION constants are 18 and 38 (scanned on every run). *)
 Theorem C18_union_branches_one_type :
   TablesTyping.setop_full_type_equality = Some 1 /\ TablesTyping.setop_arity_check = Some 1 /\
+  TablesTyping.setop_decimal_rule = Some 1 /\
+  option_map Z.of_N TablesTyping.src_dec64_max_precision = Some dec64_max_precision /\
+  option_map Z.of_N TablesTyping.src_dec128_max_precision = Some dec128_max_precision /\
   forall P ls rs out,
   unify_cols P ls rs = Some out ->
   branch_after ls out (needs_cast SLeft out) = map fst out /\
   branch_after rs out (needs_cast SRight out) = map fst out /\
-  (forall f t, In (f, t) (casts_inserted ls out (needs_cast SLeft out)) -> exists s, score P (d_id f) (d_id t) = Some s) /\
-  (forall f t, In (f, t) (casts_inserted rs out (needs_cast SRight out)) -> exists s, score P (d_id f) (d_id t) = Some s).
-Proof. split; [reflexivity|]. split; [reflexivity|]. exact union_branches_one_type. Qed.
+  (forall f t, In (f, t) (casts_inserted ls out (needs_cast SLeft out)) ->
+     (exists s, score P (d_id f) (d_id t) = Some s) \/ (is_dec P f /\ is_dec P t)) /\
+  (forall f t, In (f, t) (casts_inserted rs out (needs_cast SRight out)) ->
+     (exists s, score P (d_id f) (d_id t) = Some s) \/ (is_dec P f /\ is_dec P t)).
+Proof. repeat (split; [reflexivity|]). exact union_branches_one_type. Qed.
 Print Assumptions C18_union_branches_one_type.
+
+(* 3c. two decimals of different (precision, scale): the unified decimal type holds every value of both branch types
+   exactly - its scale is the larger scale (nothing is rounded) and it has at least as many integer digits as
+   either side - UNLESS integer digits + scale exceeds 38: then the precision is clamped to 38, the scale is still
+   the larger one, and a value with more than 38 - scale integer digits fails its cast at run time (it is never
+   rounded) *)
+Theorem C18_union_decimal_exact : forall P l r o lp ls rp rs,
+  unify1 P l r = Some o -> dec_meta P l = Some (lp, ls) -> dec_meta P r = Some (rp, rs) -> l <> r ->
+  exists po so, dec_meta P (fst o) = Some (po, so) /\ so = Z.max ls rs /\
+    ((Z.max (lp - ls) (rp - rs) + so <= dec128_max_precision)%Z ->
+       (lp - ls <= po - so)%Z /\ (rp - rs <= po - so)%Z /\ (ls <= so)%Z /\ (rs <= so)%Z) /\
+    ((dec128_max_precision < Z.max (lp - ls) (rp - rs) + so)%Z ->
+       po = dec128_max_precision /\ (ls <= so)%Z /\ (rs <= so)%Z).
+Proof. exact union_decimal_exact. Qed.
+Print Assumptions C18_union_decimal_exact.
 
 (* 4. the length test is what makes 3 hold: the zip loop alone (the binder before the repair f82a4c29b) accepts
    one Int32 column UNION two Int32 columns; the current rule rejects it *)
